@@ -128,6 +128,16 @@ Theorem C16_print_to_self_before_repair_undefined : forall b fa pos r,
 Proof. exact format_self_old_shape_undefined. Qed.
 Print Assumptions C16_print_to_self_before_repair_undefined.
 
+(* the model's "%li" text (compared with libc's by the harness): the fuel of its digit loop is
+   enough — an optional '-' followed by decimal digits that denote |z| *)
+Theorem C16_li_rendering_denotes : forall z,
+  match dec_of_Z z with
+  | 45 :: ds => z = (- Z.of_N (dec_value ds))%Z /\ (z < 0)%Z /\ Forall (fun c => 48 <= c <= 57) ds
+  | ds => z = Z.of_N (dec_value ds) /\ Forall (fun c => 48 <= c <= 57) ds
+  end.
+Proof. exact dec_of_Z_value. Qed.
+Print Assumptions C16_li_rendering_denotes.
+
 (* the String itself as the argument means the same as any argument with its value *)
 Theorem C16_self_argument_by_value : forall s,
   spec_step s OAssignSelf = spec_step s (OAssign s) /\
